@@ -4,6 +4,8 @@ import (
 	"fmt"
 	"go/ast"
 	"go/token"
+	"regexp"
+	"sort"
 	"strconv"
 
 	"pdverif/internal/goast"
@@ -32,6 +34,124 @@ func stringConst15(f *goast.File, name string) (string, error) {
 	return "", fmt.Errorf("%s: string constant %s not found", f.Path, name)
 }
 
+// canonLocals makes a skeleton independent of the NAMES of the function's local variables, parameters and receiver:
+// every such name is replaced (as a whole word) by v0, v1, ... in the order of declaration. Renaming a local is a
+// harmless edit and must not break an obligation; what a condition compares is still visible through the field and
+// function names, which are kept. (Used by the C15 and C20 translators.)
+func canonLocals(fd *ast.FuncDecl, text string) string {
+	type decl struct {
+		pos  token.Pos
+		name string
+	}
+	seen := map[*ast.Object]bool{}
+	var decls []decl
+	ast.Inspect(fd, func(n ast.Node) bool {
+		id, ok := n.(*ast.Ident)
+		if !ok || id.Obj == nil || id.Obj.Kind != ast.Var || seen[id.Obj] || id.Name == "_" {
+			return true
+		}
+		if p := id.Obj.Pos(); p >= fd.Pos() && p <= fd.End() {
+			seen[id.Obj] = true
+			decls = append(decls, decl{p, id.Name})
+		}
+		return true
+	})
+	sort.Slice(decls, func(i, j int) bool { return decls[i].pos < decls[j].pos })
+	num := map[string]int{}
+	for _, d := range decls {
+		if _, ok := num[d.name]; !ok {
+			num[d.name] = len(num)
+		}
+	}
+	if len(num) == 0 {
+		return text
+	}
+	re := regexp.MustCompile(`[A-Za-z_][A-Za-z0-9_]*`)
+	inStr := false // only rewrite inside the Coq string literals of the skeleton (source text), not the constructor names
+	var out []byte
+	for i := 0; i < len(text); {
+		if text[i] == '"' {
+			inStr = !inStr
+			out = append(out, text[i])
+			i++
+			continue
+		}
+		if loc := re.FindStringIndex(text[i:]); inStr && loc != nil && loc[0] == 0 {
+			w := text[i : i+loc[1]]
+			// a selector's field (preceded by '.') is not a local
+			if k, ok := num[w]; ok && !(i > 0 && text[i-1] == '.') {
+				out = append(out, []byte(fmt.Sprintf("v%d", k))...)
+			} else {
+				out = append(out, w...)
+			}
+			i += loc[1]
+			continue
+		}
+		out = append(out, text[i])
+		i++
+	}
+	return string(out)
+}
+
+// stateLocals: the local variables of fd that carry state across control flow - those assigned (or inc/decremented)
+// inside a nested block. Selecting assignment events by this criterion instead of by name keeps the selection stable
+// under a renaming.
+func stateLocals(fd *ast.FuncDecl) map[string]bool {
+	out := map[string]bool{}
+	var walk func(n ast.Node, depth int)
+	note := func(e ast.Expr, depth int) {
+		if id, ok := e.(*ast.Ident); ok && depth > 0 && id.Obj != nil && id.Obj.Kind == ast.Var && id.Name != "_" {
+			out[id.Name] = true
+		}
+	}
+	walk = func(n ast.Node, depth int) {
+		ast.Inspect(n, func(x ast.Node) bool {
+			switch y := x.(type) {
+			case *ast.BlockStmt:
+				if x != n {
+					walk(y, depth+1)
+					return false
+				}
+			case *ast.CaseClause:
+				for _, st := range y.Body {
+					walk(st, depth+1)
+				}
+				return false
+			case *ast.FuncLit:
+				walk(y.Body, depth+1)
+				return false
+			case *ast.AssignStmt:
+				for _, l := range y.Lhs {
+					note(l, depth)
+				}
+			case *ast.IncDecStmt:
+				note(y.X, depth)
+			}
+			return true
+		})
+	}
+	walk(fd.Body, 0)
+	return out
+}
+
+// skeletonCanon is out.skeleton with the assignment events of the state-carrying locals and canonLocals applied
+func (o *out) skeletonCanon(f *goast.File, recv, name, coqName string, opt goast.SkelOpt) error {
+	fd, err := f.Func(recv, name)
+	if err != nil {
+		return err
+	}
+	as := map[string]bool{}
+	for k := range opt.Assigns {
+		as[k] = true
+	}
+	for k := range stateLocals(fd) {
+		as[k] = true
+	}
+	opt.Assigns = as
+	fmt.Fprintf(&o.sb, "Definition %s : list ev := (* %s: (%s).%s, local names canonicalised *)\n  %s.\n", coqName, f.Path, recv, name, canonLocals(fd, f.Skeleton(fd, opt)))
+	return nil
+}
+
 func genC15(repo string) (string, error) {
 	var o out
 	st, err := goast.Load(repo, "server/core/storage.go")
@@ -48,15 +168,15 @@ func genC15(repo string) (string, error) {
 	sopt := goast.SkelOpt{
 		Calls: set("Load", "LoadRange", "Save", "Remove", "SaveServiceGCSafePoint", "initServiceGCSafePointForGCWorker",
 			"ParseUint", "FormatUint", "Unmarshal", "Marshal", "Join", "checkServiceID", "Contains"),
-		Assigns: set("hasGCWorker", "min", "ExpiredAt", "key"), Conds: true}
+		Assigns: set("ExpiredAt"), Conds: true}
 	for _, fn := range []string{"SaveGCSafePoint", "LoadGCSafePoint", "SaveServiceGCSafePoint", "RemoveServiceGCSafePoint",
 		"initServiceGCSafePointForGCWorker", "LoadMinServiceGCSafePoint"} {
-		if err := o.skeleton(st, "Storage", fn, "skel_"+fn, sopt); err != nil {
+		if err := o.skeletonCanon(st, "Storage", fn, "skel_"+fn, sopt); err != nil {
 			return "", err
 		}
 	}
 	// the id check added by "fix: reject service ids that are not a single path element ..."
-	if err := o.skeleton(st, "", "checkServiceID", "skel_checkServiceID", sopt); err != nil {
+	if err := o.skeletonCanon(st, "", "checkServiceID", "skel_checkServiceID", sopt); err != nil {
 		return "", err
 	}
 	g, err := goast.Load(repo, "server/grpc_service.go")
@@ -66,9 +186,9 @@ func genC15(repo string) (string, error) {
 	gopt := goast.SkelOpt{
 		Calls: set("validateRequest", "GetRaftCluster", "LoadGCSafePoint", "SaveGCSafePoint", "RemoveServiceGCSafePoint",
 			"HandleTSORequest", "LoadMinServiceGCSafePoint", "SaveServiceGCSafePoint"),
-		Assigns: set("newSafePoint", "ExpiredAt", "min", "ssp"), Conds: true}
+		Assigns: set("ExpiredAt"), Conds: true}
 	for _, fn := range []string{"GetGCSafePoint", "UpdateGCSafePoint", "UpdateServiceGCSafePoint"} {
-		if err := o.skeleton(g, "Server", fn, "skel_"+fn, gopt); err != nil {
+		if err := o.skeletonCanon(g, "Server", fn, "skel_"+fn, gopt); err != nil {
 			return "", err
 		}
 	}
@@ -79,7 +199,7 @@ func genC15(repo string) (string, error) {
 	}
 	aopt := goast.SkelOpt{Calls: set("RemoveServiceGCSafePoint", "LoadGCSafePoint", "GetAllServiceGCSafePoints", "SaveServiceGCSafePoint", "SaveGCSafePoint")}
 	for _, fn := range []string{"List", "Delete"} {
-		if err := o.skeleton(api, "serviceGCSafepointHandler", fn, "skel_api_"+fn, aopt); err != nil {
+		if err := o.skeletonCanon(api, "serviceGCSafepointHandler", fn, "skel_api_"+fn, aopt); err != nil {
 			return "", err
 		}
 	}
